@@ -399,9 +399,11 @@ def write_md(allr):
                 "Produced by `tools/mutation_run.py` (see its docstring) against /repo HEAD.  A mutant is generated inside "
                 "every function an anchor of the property points into; those the repository's own suite kills are "
                 "discarded; the property's quick check is run on the rest; what it lets through is run against the quick "
-                "checks of the other properties anchored in the same file (anchors overlap: the function listed under one "
-                "property often carries behaviour another one states).  What no check catches is triaged by hand in "
-                "`mutation/TRIAGE.json` (equivalent / outside every property / reach gap, with the reason).\n\n"
+                "checks of the other properties anchored in the same file and then of all twenty (anchors overlap: the "
+                "function listed under one property often carries behaviour another one states; the same mutant is listed "
+                "under every property whose anchors contain it).  What no check catches is triaged in "
+                "`mutation/TRIAGE.json` by the rules of `tools/mutation_triage.py` (dead code / equivalent / cosmetic / "
+                "outside every property's domain, each with the reason).\n\n"
                 "| property | generated | killed by the repository's suite | caught by its check | caught by another property's check | by none | other (timeout, inconclusive) |\n"
                 "|---|---|---|---|---|---|---|\n")
         byp = {}
